@@ -10,6 +10,7 @@ import Mathlib.Tactic.Ring
 import Mathlib.Tactic.Linarith
 import Mathlib.Tactic.FieldSimp
 import Mathlib.Tactic.NormNum
+import Mathlib.Algebra.Order.Floor.Ring
 
 noncomputable section
 
@@ -37,6 +38,7 @@ def Real.atan2 (y x : ℝ) : ℝ :=
   sqrt := Real.sqrt
   acos := Real.arccos
   atan2 := Real.atan2
+  floor := fun x => (⌊x⌋ : ℝ)
   pi := Real.pi
 
 end
